@@ -10,6 +10,7 @@
 From Coq Require Import ZArith List.
 From WebP Require Import Gen.Kernels Lib.ZBits Lib.Res Spec.YUV Model.Yuv Spec.Alpha Model.Alpha Model.Still
   Proofs.C13_yuv Proofs.Alpha_unfilter Proofs.Still_glue.
+From WebP Require Model.Container Proofs.Container_simple.
 Import ListNotations.
 Open Scope Z_scope.
 
@@ -32,6 +33,13 @@ Proof. exact apply_alpha_buf_independent_lemma. Qed.
 Theorem rgb_is_rgba_dropped : forall data buf n, length data = (4 * n)%nat -> length buf = (3 * n)%nat ->
   drop_alpha_into data buf = drop_alpha data.
 Proof. exact drop_alpha_into_spec. Qed.
+
+(* output_buffer_size = width x height x (4 if has_alpha else 3), for every decoder state whose dimensions fit the 24-bit + 1 canvas fields
+   (for every well-formed file this is the value the headers define: theorem accessors_spec of Properties/C08.v) *)
+Theorem buffer_size_formula : forall d, 0 <= Model.Container.d_width d <= 16777216 -> 0 <= Model.Container.d_height d <= 16777216 ->
+  Model.Container.output_buffer_size d
+  = Some (Model.Container.d_width d * Model.Container.d_height d * (if Model.Container.d_has_alpha d then 4 else 3)).
+Proof. exact Proofs.Container_simple.output_buffer_size_ok. Qed.
 
 Example c11_instance :
   drop_alpha_into [1; 2; 3; 4; 5; 6; 7; 8] [9; 9; 9; 9; 9; 9] = [1; 2; 3; 5; 6; 7].
